@@ -2,6 +2,7 @@ import OH.Proofs.SynNum
 import OH.Proofs.SynRule9
 import OH.Model.PrintableOut
 import OH.Proofs.EvalComments2
+import OH.Proofs.SynClosure5
 /-
 C06 — printed expressions parse back to an equivalent expression.
 Property theorems only.  The printers are OH/Model/Print.lean (one definition per `Display`), the
@@ -96,6 +97,38 @@ theorem C06_states_do_not_depend_on_comments (f : List String → List String) (
     | .error p, .error p' => p = p'
     | _, _ => False :=
   OH.Proofs.EvalComments.scheduleAt_kinds_mapComments f ctx e d
+
+/-! ### without hypothesis: every parsed expression -/
+
+/-- everything the parser accepts is within the class of the round-trip theorem (for EVERY string) -/
+theorem C06_parsed_is_printable (s : String) (e : Expr) (h : Parser.parse s = .ok e) :
+    OH.Model.Printable.printableOut e = true :=
+  OH.Proofs.SynClosure.parse_ok_printable s.toList e h
+
+/-- **C06, full syntactic statement**: for every string `s` that parses to `e`, `to_string e` does not
+panic and parses successfully — to `e` with the comments of each rule joined -/
+theorem C06_every_parsed_expression_round_trips (s : String) (e : Expr) (h : Parser.parse s = .ok e) :
+    ∃ p, Print.toString? e = some p ∧ Parser.parse p = .ok (reparsed e) :=
+  OH.Proofs.SynClosure.parse_toString_parse s e h
+
+/-- **C06, full statement**: for every string `s` that parses to `e`: the printed form parses, and
+whatever it parses to evaluates identically in every context, on every day, at every minute -/
+theorem C06_every_parsed_expression_reparses_equivalent (s : String) (e : Expr) (h : Parser.parse s = .ok e) :
+    ∃ p e', Print.toString? e = some p ∧ Parser.parse p = .ok e' ∧
+      ∀ (ctx : Ctx) (d : Int),
+        match scheduleAt ctx e d, scheduleAt ctx e' d with
+        | .ok sc, .ok sc' => ∀ m, OH.Spec.Schedule.dayState sc m = OH.Spec.Schedule.dayState sc' m
+        | .error q, .error q' => q = q'
+        | _, _ => False := by
+  have hp := C06_parsed_is_printable s e h
+  obtain ⟨p, hs, hr⟩ := C06_every_parsed_expression_round_trips s e h
+  refine ⟨p, reparsed e, hs, hr, fun ctx d => ?_⟩
+  exact C06_reparsed_evaluates_identically e hp (reparsed e) (parse_print_roundtrip e hp) ctx d
+
+/-- the printers never reach their `unwrap` on a parsed expression -/
+theorem C06_print_never_panics_on_parsed (s : String) (e : Expr) (h : Parser.parse s = .ok e) :
+    Print.printPanics e = false :=
+  OH.Proofs.SynClosure.print_never_panics_on_parsed s e h
 
 /-- non-vacuity: a rule with years, a dated range with offsets, a week, weekdays with positions and
 an offset, a holiday, two time spans (an event with an offset, an open end) and two comments is in the
